@@ -139,6 +139,6 @@ ASSUME = ['timer period 500 ms (static constant of endpoint.cc) — cases are ke
           'the request clock starts when the parser is (re)set: at connect or at the end of the previous request']
 
 def run(tier):
-    return core.standard_run(PROP, tier, MODULES, THEOREMS, gen, oracle, classify, RULE, ASSUME, driver=('drv_live', drivers.LIVE_SOURCES), canon=canon)
+    return core.standard_run(PROP, tier, MODULES, THEOREMS, gen, oracle, classify, RULE, ASSUME, driver=('drv_live', drivers.LIVE_SOURCES), canon=canon, retry=2)
 def replay(path):
     return core.standard_replay(PROP, path, oracle, driver=('drv_live', drivers.LIVE_SOURCES))
